@@ -49,6 +49,8 @@ MD_POOL = {
     "long": {"klong": ["L" * 3000]},
     "t1": {"t1": ["tv1"]},
     "t2": {"t1": ["tv2"], "t2": ["p", "q"]},
+    # a request that carries its own (well-formed) grpc-timeout header next to ordinary keys
+    "tmo": {"grpc-timeout": ["50S"], "k1": ["with-deadline"], "k3": ["c"]},
 }
 
 PREFIX = [{"do": "open"}, {"do": "drain"}]
@@ -339,7 +341,7 @@ def fam_meta(seed, n, dirs=("fwd", "rev"), gated=True):
     caller-side finish between its sub-steps"""
     rng = random.Random(seed)
     out = []
-    mds = ["h1", "h2", "multi", "long", "empty", "none"]
+    mds = ["h1", "h2", "multi", "long", "empty", "tmo", "none"]
     cl = cfgs(dirs, ("fc", "nofc"))
     for i in range(n):
         cname, cfg = cl[i % len(cl)]
@@ -385,6 +387,8 @@ def fam_meta(seed, n, dirs=("fwd", "rev"), gated=True):
                   "s": {"m": [op("recv") for _ in range(nsr)] + hops + [ret]}}
         pol = {"kind": rng.choice(["random", "eager", "lazy"]), "seed": rng.randrange(1 << 30), "max": 400}
         cfg = dict(cfg, tunnelMD={"authorization": ["Bearer tunnel-secret"], "k1": ["tunnel"]})
+        if i % 3 == 1:
+            cfg["icept"] = True
         out.append(scenario("meta-%s-%d" % (cname, i), cfg, [rs, rpc_script(2, "unary_invoke", [3], resp=2)], pol,
                             meta={"family": "meta", "done": [1, 2]}))
     # the handler returns a status without reading the request (as an interceptor that refuses
